@@ -77,7 +77,8 @@ AUD_AS_TEXT = [False]      # the provider's get_audiences hook may return the si
 def build(alg, require_nonce, extra_claims):
     store = S.Store()
     store.used_nonces = set()
-    srv = S.Server(store)
+    from impl import transports as T
+    srv = S.Server(store, transport=T.pick(alg, require_nonce, sorted(extra_claims)))     # framework-free, Flask or Django glue
     g = S.make_grants(store)
     priv, _, _ = keypair(alg)
     cfg = {"key": priv, "alg": alg, "iss": ISS, "exp": 3600}
